@@ -168,6 +168,13 @@ theorem checkField_complete (relaxed : Bool) (st : ClState) (v : Bytes) (n : Int
         | nil => exact absurd he hne
         | cons a b => rfl
       simp only [hne', Bool.not_false, Bool.or_true] at this
+      have hitems : (strListGetItem v).1.isNone = false := by
+        cases hg : strListGetItem v with
+        | mk r rest =>
+          cases r with
+          | some it => rfl
+          | none => exact absurd (getItem_none v rest hg hb) hne
+      simp only [hitems, loopEndsBlank_false, Bool.or_self, Bool.and_false, Bool.false_eq_true, if_false]
       exact ⟨this.1, this.2.1, this.2.2 this.2.1, by intro h; simp at h⟩
   · have hc' : v.contains 44 = false := by simpa using hc
     simp only [hc', Bool.false_eq_true, if_false]
